@@ -413,10 +413,19 @@ class List(list, base.Symbolic, pg_typing.CustomTyping):
     if isinstance(value, Insertion):
       should_insert = True
       value = value.value
-      # An inserted value always occupies a new position: if it already lives
-      # in a tree (possibly at this very index), insert a copy of it.
-      if isinstance(value, base.Symbolic) and value.sym_parent is not None:
-        value = value.clone()
+    # Normalize negative indices (an insertion clamps like `list.insert`), so
+    # that the paths of the new child and of the update report its real
+    # position.
+    if index < 0:
+      if should_insert:
+        index = max(0, index + len(self))
+      elif index >= -len(self):
+        index += len(self)
+    # An inserted value always occupies a new position: if it already lives
+    # in a tree (possibly at this very index), insert a copy of it.
+    if (should_insert and isinstance(value, base.Symbolic)
+        and value.sym_parent is not None):
+      value = value.clone()
 
     old_value = pg_typing.MISSING_VALUE
     # Replace an existing value.
@@ -427,8 +436,6 @@ class List(list, base.Symbolic, pg_typing.CustomTyping):
         return None
       # Assigning MISSING_VALUE to an existing element removes it.
       if pg_typing.MISSING_VALUE == value:
-        if index < 0:
-          index += len(self)
         list.__delitem__(self, index)
         if isinstance(old_value, base.TopologyAware):
           old_value.sym_setparent(None)
@@ -636,6 +643,8 @@ class List(list, base.Symbolic, pg_typing.CustomTyping):
           f'list index out of range. '
           f'Length={len(self)}, index={index}')
 
+    if index < 0:
+      index += len(self)
     old_value = self.sym_getattr(index)
     super().__delitem__(index)
     # Detach old value from object tree.
